@@ -18,7 +18,8 @@ def run(res, tier, seed, replay):
     except vlib.BuildError as e:
         res.violation("garble-build", "garble no longer builds: %s" % str(e)[-800:], {"error": str(e)}, found_input=False)
         return
-    configs = [([], {"gogarble": "*"})]
+    # a seed longer than the 8 bytes garble warns about: map/reverse run in the top-level process, the build in toolexec children
+    configs = [([], {"gogarble": "*"}), (["-seed=c2VlZHNlZWRzZWVkMTIz"], {"gogarble": "*", "seed": b"seedseedseed123"})]
     if tier != "quick":
         configs.append((["-seed=AAAAAAAAAAE"], {"gogarble": "*", "seed": bytes(7) + b"\x01"}))
         configs.append((["-tiny"], {"gogarble": "*", "tiny": True}))
